@@ -110,12 +110,15 @@ Proof.
     destruct (heads_ok ss1 Hok1 Hb1) as [[hs [Hh HF]]|[ss2 [Hh [Hok2 [Hfl2 [_ Hm2]]]]]]; rewrite Hh.
     + destruct hs as [|h hs].
       * (* no stream left *)
-        inversion HF; subst.
-        destruct (IH [] ob) as [r [Hr [Hs Hx]]]; try assumption; try constructor.
+        assert (E1 : ss1 = []) by (inversion HF; reflexivity).
+        destruct (IH [] ob) as [r [Hr [Hs Hx]]].
         { rewrite Ess in Hm. rewrite measure_cons in Hm. simpl. lia. }
+        { constructor. }
+        { constructor. }
+        { exact Hacc. }
         { intros a y _ []. }
-        exists r. split; [exact Hr|]. split; [exact Hs|].
-        intros x. rewrite (Hx x). rewrite <- Hv1. tauto.
+        rewrite E1. exists r. split; [exact Hr|]. split; [exact Hs|].
+        intros x. rewrite (Hx x). rewrite <- Hv1, E1. tauto.
       * destruct (min_list_props hs h) as [Hmin_in Hmin_le].
         set (m := min_list h hs) in *.
         destruct (pop_where_union m ss1 (h :: hs) Hok1 HF Hsort1 Hmin_le) as [P1 [P2 [P3 [P4 [P5 P6]]]]].
